@@ -9,4 +9,4 @@ CONSTANTS
   CountOps = FALSE
 VIEW absvars
 INVARIANTS TypeOK IsCanon NoLeakNoDangling Independent
-PROPERTIES ObserversPure NoexceptNeverThrow ThrowChangesNothing OthersUntouched CopyCopies SwapSwaps ObserversAgree
+PROPERTIES ObserversPure NoexceptNeverThrow ThrowChangesNothing OthersUntouched CopyCopies SwapSwaps ObserversAgree NonRvalueSourceCopies RvalueMoves
